@@ -540,6 +540,54 @@ func scRestartLong(r *gen.Rand, name string, gap int) Case {
 	return b.done()
 }
 
+// scGroups: well-formed transaction groups of 2..20 small members whose header transaction pays
+// exactly the per-member sum of real fees (S), more (S+), one unit less (S-1), only the figure for
+// the summed sizes (W), something in between (M), or less than that (W-1): submitted to the pool,
+// offered to the node's own block production, and delivered inside peer blocks.
+func scGroups(r *gen.Rand, name string, specs []string) Case {
+	b := newCase(name, r.Bool(), 600, 200)
+	tag := 1
+	ws := b.trunk(r, 0, 1+r.Intn(3), &tag)
+	tip := ws[len(ws)-1]
+	for j, spec := range specs {
+		n := 2 + r.Intn(4)
+		switch r.Intn(4) {
+		case 0:
+			n = 2
+		case 1:
+			n = 20
+		case 2:
+			n = 2 + r.Intn(19)
+		}
+		ids := b.group(n, spec, &tag)
+		if r.Chance(2, 3) {
+			b.op("pool+ %d", ids[0])
+		}
+		txs := append([]int{}, ids...)
+		if r.Bool() {
+			txs = append([]int{b.plain(tag)}, txs...)
+			tag++
+		}
+		o := opt()
+		o.salt = 1 + j%3
+		w := b.blk(tip, txs, o)
+		b.op("produce %d", w)
+		b.deliver(w, "p", bc(r))
+		if spec == "S" || spec == "S+" {
+			tip = w
+		}
+		if r.Chance(1, 3) {
+			b.op("scan")
+		}
+	}
+	nx := b.blk(tip, []int{b.plain(tag)}, opt())
+	tag++
+	b.deliver(nx, "p", bc(r))
+	b.op("scan")
+	b.observe()
+	return b.done()
+}
+
 // GenC28 is the case generator of h_c28.
 func GenC28(seed uint64) []Case {
 	r := gen.New(seed*0x9e37 + 28)
@@ -549,6 +597,15 @@ func GenC28(seed uint64) []Case {
 	cs = append(cs, scS28(r, "s28-extra-bad", true, true))
 	cs = append(cs, scPoolHonest(r, "pool-honest"))
 	cs = append(cs, scBoundary(r, "boundary"))
+	cs = append(cs, scGroups(r, "groups-all", []string{"W", "S", "S-1", "M", "S+", "W-1"}))
+	for i := 0; i < gen.Scale(2, 40); i++ {
+		specs := []string{"S", "S-1", "W", "M", "S+", "W-1"}
+		var pick []string
+		for j := 0; j < 3+r.Intn(4); j++ {
+			pick = append(pick, specs[r.Intn(len(specs))])
+		}
+		cs = append(cs, scGroups(r, fmt.Sprintf("groups%d", i), pick))
+	}
 	for mode, nm := range []string{"none", "some", "all"} {
 		cs = append(cs, scDupPooled(r, "duppooled-"+nm, 2+r.Intn(3), mode))
 	}
